@@ -102,14 +102,15 @@ def flat(M, ev):
     return vals, exact
 
 
-def pyg_derivs(m, point):
+def pyg_derivs(m, point, reverse=False):
     def ev(expr):
         sub = {s: sympy.Rational(point[str(s)].numerator, point[str(s)].denominator) for s in expr.free_symbols}
         return mg.to_fraction(expr.subs(sub))
     out, exact = {}, True
-    for name, getter in (("J", m.get_jacobian_eqn), ("G", m.get_grad_eqn), ("DJ", m.get_diff_jacobian_eqn),
-                         ("GJ", m.get_grad_jacobian_eqn), ("F", m.get_TransitionJacobian),
-                         ("MU", m.get_TransitionMean), ("SG", m.get_TransitionVar)):
+    getters = [("J", m.get_jacobian_eqn), ("G", m.get_grad_eqn), ("DJ", m.get_diff_jacobian_eqn),
+               ("GJ", m.get_grad_jacobian_eqn), ("F", m.get_TransitionJacobian),
+               ("MU", m.get_TransitionMean), ("SG", m.get_TransitionVar)]
+    for name, getter in (reversed(getters) if reverse else getters):       # each getter must stand on its own: any order
         M = getter()
         if M.rows == 0 or M.cols == 0:
             out[name] = []
@@ -243,7 +244,7 @@ def after_growth(d, route, seed, pt):
     d2 = grown(d, seed)
     e = d2["events"][-1]
     m.add_event(pg.Event(rate=e["rate"], transition_list=[pg.Transition(origin=d["states"][0], transition_type="D", magnitude="2")]))
-    f = compare(d2, list(order) + [len(d["events"])], pyg_derivs(m, pt), pt, m)
+    f = compare(d2, list(order) + [len(d["events"])], pyg_derivs(m, pt, reverse=bool(seed % 8 == 0)), pt, m)
     return ("after-add_event/" + f[0], "after a process was added to the live model: " + f[1]) if f else None
 
 
